@@ -378,5 +378,6 @@ example : ((runTrace C03.exM {} St.fresh).map fun s => (s.live.wstate 0, s.live.
 #print axioms allocate_AllocInv_partial
 #print axioms chkWorking_HoldWorking_partial
 #print axioms Alloc.step_core
+#print axioms Alloc.step_core_guard
 
 end PDesy
